@@ -143,7 +143,7 @@ def hazards():
             return cfg
         return f
     for lims in ([(2, "1s"), (0, "1h")], [(0, "1h"), (2, "1s")], [(5, "10s"), (0, "10s")], [(0, "10s"), (5, "10s")], [(0, "1s"), (7, "1m"), (9, "1h")],
-                 [(7, "1s"), (0, "1m"), (9, "1h")], [(7, "1s"), (9, "1m"), (0, "1h")], [(0, "2s"), (0, "3s")], [(3, "60s"), (4, "1m")]):
+                 [(7, "1s"), (0, "1m"), (9, "1h")], [(7, "1s"), (9, "1m"), (0, "1h")], [(0, "2s"), (0, "3s")], [(300, "60s"), (400, "1m")]):
         hz.append(("rate limits %s" % ", ".join("%d per %s" % l for l in lims), "either", rls(lims)))
 
     # powers of two and their neighbours (truncating casts, sign bits) with periods that take the dividing branch of the limiter
